@@ -165,14 +165,14 @@ class Ctx:
         ob = Obligation(name, meta)
         ob.kind = "reach"
         t = time.time()
-        r = self.check(*c)
+        status, model, reason, how = self.solve(c[0] if c else z3.BoolVal(True), self.timeout_ms)
         ob.time = time.time() - t
-        ob.status = str(r)
+        ob.status = status
         ob.nontrivial = True
         ob.text = "reachable: " + (_short(c[0]) if c else "path")
         ob.ast_hash = hash(name)
-        if r == z3.sat:
-            ob.model = self.model_dict()
+        ob.model = model
+        ob.reason = reason
         self.obligations.append(ob)
         return ob
 
